@@ -157,6 +157,13 @@ pub struct SeamLog {
 
 pub type SharedLog = Arc<Mutex<SeamLog>>;
 
+pub fn snap(l: &SharedLog) -> SeamLog {
+    let g = l.lock().unwrap();
+    let c = g.clone();
+    drop(g);
+    c
+}
+
 pub fn new_log() -> SharedLog {
     Arc::new(Mutex::new(SeamLog::default()))
 }
@@ -486,6 +493,41 @@ impl Write for Collect {
 /// Drain `r` to its end.  Returns everything released before the end/err, and how it ended.
 /// `max` bounds the amount accepted (guards against readers that never end).
 pub fn drain<R: BufRead>(r: &mut R, c: &Consumer, max: usize) -> (Vec<u8>, io::Result<()>) {
+    if let Consumer::FillConsume(sizes) = c {
+        let mut out = Vec::new();
+        let too_much = || io::Error::other("sim: consumer got more than the bound (runaway reader)");
+        let mut i = 0usize;
+        let mut spins = 0u64;
+        loop {
+            let want = sizes[i % sizes.len()];
+            i += 1;
+            let k = match r.fill_buf() {
+                Ok([]) => return (out, Ok(())),
+                Ok(b) => {
+                    let k = want.min(b.len());
+                    out.extend_from_slice(&b[..k]);
+                    k
+                }
+                Err(e) if e.kind() == io::ErrorKind::Interrupted => {
+                    spins += 1;
+                    if spins > 10_000 {
+                        return (out, Err(io::Error::other("sim: endless Interrupted")));
+                    }
+                    continue;
+                }
+                Err(e) => return (out, Err(e)),
+            };
+            r.consume(k);
+            if out.len() > max {
+                return (out, Err(too_much()));
+            }
+        }
+    }
+    drain_read(r, c, max)
+}
+
+/// Same for a plain `Read` (FillConsume degrades to a read loop with the same sizes).
+pub fn drain_read<R: Read>(r: &mut R, c: &Consumer, max: usize) -> (Vec<u8>, io::Result<()>) {
     let mut out = Vec::new();
     let too_much = || io::Error::other("sim: consumer got more than the bound (runaway reader)");
     match c {
@@ -507,7 +549,7 @@ pub fn drain<R: BufRead>(r: &mut R, c: &Consumer, max: usize) -> (Vec<u8>, io::R
             let res = io::copy(r, &mut w);
             (w.0, res.map(|_| ()))
         }
-        Consumer::ReadLoop(sizes) => {
+        Consumer::ReadLoop(sizes) | Consumer::FillConsume(sizes) => {
             let mut i = 0usize;
             let mut buf = vec![0u8; *sizes.iter().max().unwrap_or(&1)];
             let mut spins = 0u64;
@@ -529,34 +571,6 @@ pub fn drain<R: BufRead>(r: &mut R, c: &Consumer, max: usize) -> (Vec<u8>, io::R
                         }
                     }
                     Err(e) => return (out, Err(e)),
-                }
-            }
-        }
-        Consumer::FillConsume(sizes) => {
-            let mut i = 0usize;
-            let mut spins = 0u64;
-            loop {
-                let want = sizes[i % sizes.len()];
-                i += 1;
-                let k = match r.fill_buf() {
-                    Ok([]) => return (out, Ok(())),
-                    Ok(b) => {
-                        let k = want.min(b.len());
-                        out.extend_from_slice(&b[..k]);
-                        k
-                    }
-                    Err(e) if e.kind() == io::ErrorKind::Interrupted => {
-                        spins += 1;
-                        if spins > 10_000 {
-                            return (out, Err(io::Error::other("sim: endless Interrupted")));
-                        }
-                        continue;
-                    }
-                    Err(e) => return (out, Err(e)),
-                };
-                r.consume(k);
-                if out.len() > max {
-                    return (out, Err(too_much()));
                 }
             }
         }
